@@ -194,7 +194,13 @@ def interpvars(f, weights, dimension, loginterp=[]):
             outf.groups[grpk] = interpvars(grpv, weights, dimension)
 
     oldd = f.dimensions[dimension]
-    didx, = [i for i, l in enumerate(weights.shape) if len(oldd) == l]
+    didxs = [i for i, l in enumerate(weights.shape) if len(oldd) == l]
+    if len(didxs) == 0:
+        raise ValueError('weights %s have no axis of the length of %s (%d)'
+                         % (weights.shape, dimension, len(oldd)))
+    # weights are dim(new, old): when the new length equals the old one the
+    # later axis is the old dimension
+    didx = didxs[-1]
 
     newd = outf.createDimension(dimension, weights.shape[didx - 1])
     newd.setunlimited(oldd.isunlimited())
